@@ -115,7 +115,7 @@ func isSelectorResult(t types.Type) bool {
 	if n == nil || n.Obj().Pkg() == nil || !strings.HasSuffix(n.Obj().Pkg().Path(), "/gotype") {
 		return false
 	}
-	switch n.Obj().Name() {
+	switch core.TypeName(n) {
 	case "reFoldFn", "foldFn", "reflUnfolder", "ptrUnfolder", "unfolder":
 		return true
 	}
@@ -266,7 +266,7 @@ func R14(p *core.Prog) *core.Result {
 			continue
 		}
 		rn := namedOf(f.Signature.Recv().Type())
-		if rn == nil || !strings.HasPrefix(rn.Obj().Name(), "unfolderMap") {
+		if rn == nil || !strings.HasPrefix(core.TypeName(rn), "unfolderMap") {
 			continue
 		}
 		for _, b := range f.Blocks {
@@ -320,7 +320,7 @@ func R14(p *core.Prog) *core.Result {
 			continue
 		}
 		rn := namedOf(f.Signature.Recv().Type())
-		if rn == nil || !strings.HasPrefix(rn.Obj().Name(), "unfolderReflMap") {
+		if rn == nil || !strings.HasPrefix(core.TypeName(rn), "unfolderReflMap") {
 			continue
 		}
 		for _, b := range f.Blocks {
@@ -649,11 +649,11 @@ func structFieldTypeKey(v ssa.Value) string {
 		return ""
 	}
 	n := namedOf(fa.X.Type())
-	if n == nil || n.Obj().Pkg() == nil || n.Obj().Pkg().Path() != "reflect" || n.Obj().Name() != "StructField" {
+	if n == nil || n.Obj().Pkg() == nil || n.Obj().Pkg().Path() != "reflect" || core.TypeName(n) != "StructField" {
 		return ""
 	}
 	st := n.Underlying().(*types.Struct)
-	if st.Field(fa.Field).Name() != "Type" {
+	if core.FieldName(st, fa.Field) != "Type" {
 		return ""
 	}
 	return addrKey(fa)
@@ -769,7 +769,7 @@ func R15(p *core.Prog) *core.Result {
 		r.Fail(".RESET", "gotype.(*Unfolder).Reset", p.Pos(reset.Pos()), "Unfolder.Reset no longer calls SetTarget(nil)", "")
 	}
 	// owned stacks: fields of unfoldCtx whose type has an init method and (push+pop, or reset)
-	ctxT := gp.Types.Scope().Lookup("unfoldCtx")
+	ctxT := typeObj(p, "gotype", "unfoldCtx")
 	if ctxT == nil {
 		r.Undecided("", "gotype.unfoldCtx", "type unfoldCtx not found")
 		return r
@@ -788,7 +788,7 @@ func R15(p *core.Prog) *core.Result {
 		ms := types.NewMethodSet(types.NewPointer(n))
 		has := map[string]bool{}
 		for j := 0; j < ms.Len(); j++ {
-			has[ms.At(j).Obj().Name()] = true
+			has[methodName(ms.At(j).Obj())] = true
 		}
 		if has["init"] && (has["push"] && has["pop"] || has["reset"]) {
 			owned[f.Name()] = true
@@ -870,7 +870,7 @@ func (k *r15client) Instr(s r15state, in ssa.Instruction) (r15state, bool, []r15
 			// receiver is &u.unfoldCtx.F or &ctx.F
 			if fa, ok := c.Common().Args[0].(*ssa.FieldAddr); ok {
 				stt := fa.X.Type().Underlying().(*types.Pointer).Elem().Underlying().(*types.Struct)
-				s.done = s.done.with(stt.Field(fa.Field).Name())
+				s.done = s.done.with(core.FieldName(stt, fa.Field))
 			}
 		}
 	}
